@@ -275,10 +275,8 @@ class Arm(Robot):
                 goal_position.gTM(), theta_init,
                 self.pos_tolerance, self.rot_tolerance, max_iters=max_iters)
         theta = fsr.angleMod(theta)
-        self._theta = theta
-        if success:
-            self._end_effector_pos_global = goal_position
-        else:
+        self.FK(theta, protect=True)
+        if not success:
             if check:
                 i = 0
                 while i < level and success == 0:
@@ -291,7 +289,7 @@ class Arm(Robot):
                             self.pos_tolerance, self.rot_tolerance, max_iters=max_iters)
                     i = i + 1
                 if success:
-                    self._end_effector_pos_global = goal_position
+                    self.FK(theta, protect=True)
         return theta, success
 
     def constrainedIK(self, goal_position : tm, theta_init : 'np.ndarray[float]' = None,
